@@ -559,9 +559,9 @@ func runProgram(f *fixture, p program, bound, maxExec int) progResult {
 			all = append(all, callRec{99, o, base + 2*k, base + 2*k + 1, ops[o].Do(f, obj)})
 		}
 		// structural invariants on the retained state
-		sh := space.Field(obj, "blsThresholdSignatureInspector")
-		shares := space.Field(sh.Interface(), "shares")
-		if shares.Len() > T+1 {
+		// (read by reflection; a tree in which the field was renamed just loses this extra invariant -
+		// linearizability below does not depend on it)
+		if shares, ok := sharesField(obj); ok && shares.Len() > T+1 {
 			v("invariant:more-than-t+1-shares", fmt.Sprintf("%d shares retained", shares.Len()), all)
 			return
 		}
@@ -820,4 +820,16 @@ func runProgramSchedule(f *fixture, p program, sched []int) []string {
 	ok, _ := linearizable(f, p.Pre, calls)
 	h = append(h, fmt.Sprintf("deadlock=%v panic=%q linearizable=%v", x.Deadlock, x.Panic, ok))
 	return h
+}
+
+
+func sharesField(obj any) (v reflect.Value, ok bool) {
+	defer func() {
+		if recover() != nil {
+			ok = false
+		}
+	}()
+	sh := space.Field(obj, "blsThresholdSignatureInspector")
+	v = space.Field(sh.Interface(), "shares")
+	return v, v.Kind() == reflect.Map
 }
